@@ -8,7 +8,7 @@ Definition err_eqb (a b : err) : bool :=
   match a, b with
   | ErrRemap, ErrRemap | ErrSingleDim, ErrSingleDim | ErrMultiDim, ErrMultiDim | ErrDt, ErrDt | ErrClash, ErrClash
   | ErrN, ErrN | ErrOmega, ErrOmega | ErrCacheDiag, ErrCacheDiag | ErrAddDim, ErrAddDim | ErrAddDup, ErrAddDup
-  | ErrKey, ErrKey | ErrDupMap, ErrDupMap | ErrDupIds, ErrDupIds => true
+  | ErrKey, ErrKey | ErrDupMap, ErrDupMap | ErrDupIds, ErrDupIds | ErrNoArgs, ErrNoArgs => true
   | _, _ => false end.
 Definition src_eqb (a b : src) : bool :=
   match a, b with
